@@ -778,6 +778,8 @@ func flags(repo string) []flag {
 			}
 		}
 		add("httpReadHonoursCtx", ok2, "")
+		wr := ht.fn("httpReadWriter", "Write")
+		add("httpWriteHonoursCtx", wr != nil && strings.Contains(str(wr), "http.NewRequestWithContext(ctx, ") && !strings.Contains(str(wr), "http.NewRequest("), "")
 	}
 	// chain recursion shape (C20)
 	{
